@@ -45,13 +45,14 @@ def run(tier):
         depths = [np.inf, 5.0, 50.0, np.nan, 0.7]
         for g in groups:
             layout = rng.choice(["scalar", "time", "time_lat", "flat"])
-            kind = rng.choice(["1d", "1d", "2d"])
+            kind = rng.choice(["1d", "1d", "2d", "2dnu"])
             scale = rng.choice([1.0, 0.125])
             batch = g[:1] if layout == "scalar" else g
             dsel = [rng.choice(depths) for _ in batch]
-            ctx = {"f": batch[0]["f"], "layout": layout, "kind": kind, "frequency_scale": scale}
+            escale = rng.choice([1.0, 1.0, 2.0 ** -36, 2.0 ** 10])      # the level of the spectrum (exact scaling): selection must not depend on it
+            ctx = {"f": batch[0]["f"], "layout": layout, "kind": kind, "frequency_scale": scale, "energy_scale": escale}
             try:
-                s = sc.build(batch, layout, kind, scale, moments=moments, depth=lambda i: dsel[i])
+                s = sc.build(batch, layout, kind, scale, moments=moments, depth=lambda i: dsel[i], escale=escale)
             except Exception as e:
                 chk.violation("raise:build:%s" % type(e).__name__, "building the spectrum raised", dict(ctx, error=str(e)[:300]))
                 continue
@@ -83,6 +84,13 @@ def run(tier):
                     pk = c["bands"][bi]["pk"]
                     if pk == 0:
                         continue   # in-band maximum not > 0: unspecified
+                    if kind == "2dnu":
+                        # e(f) = density x bin width is rounded: an exact tie of the integers may come out 1 ulp apart, so only
+                        # (case, band) pairs with a unique in-band maximum are judged on the non-uniform direction grid
+                        b_ = c["bands"][bi]
+                        inb = [c["e"][j] for j in range(len(c["f"])) if not c["nan"][j] and 2 * c["f"][j] >= b_["lo2"] and (b_["hi2"] == sc.INF2 or 2 * c["f"][j] < b_["hi2"])]
+                        if inb.count(max(inb)) > 1:
+                            continue
                     for second in ((False, True) if layout in ("time_lat", "flat") else (False,)):
                         cc = dict(ctx, e=c["e"], nan=c["nan"], band=[fmin, fmax], batch_index=i, expected_index=pk - 1)
                         gi = int(sc.value_at(idx, layout, i, second))
